@@ -57,3 +57,11 @@ def run(rep, tier, seed):
                        "image compared with the abstract tree after every op; thorough adds all op sequences of length <= 2 over a 3-name "
                        "alphabet x 2 directories; distinct = distinct op sequences without unlisted finding")
     rep.sample({"config": scripts[0][2], "ops": [sc.short(l, 80) for l in scripts[0][6:16]]})
+    # extra stream: byte-level correspondence of the directory slot layer (Model/DirSlots.v) with src/dir.rs
+    try:
+        from props import cdir_corr
+        cdir_corr.run_stream(rep, tier, seed)
+    except Exception as e:
+        import traceback
+        rep.violation("directory slot layer correspondence stream crashed: %s" % e,
+                      {"theorem_or_correspondence": "tools/props/cdir_corr.py", "traceback": traceback.format_exc()[-2000:]}, nofail=True)
